@@ -57,6 +57,36 @@ Theorem C05_anyname_not_adopted_without_privilege :
   forall b supplied current, IsSet b 26 = false -> adopted_name b supplied current = current.
 Proof. intros b s c H. unfold adopted_name. now rewrite H. Qed.
 
+(* field contents: the upload-folder and drop-box rules are judged on the directory the path field RESOLVES to
+   (the one ReadPath opens), for all item lists - "." / ".." items, separators inside items, any declared count *)
+Theorem C05_dropbox_listing_needs_privilege :
+  forall (b : bitmap) (declared : N) (items : list bytes),
+    declared <> 0%N -> dir_is W_DROPBOX items = true -> IsSet b 30 = false -> may_list b declared items = false.
+Proof.
+  intros b d items Hd Hk Hb. unfold may_list, impl_dir_is. destruct (N.eqb_spec d 0); [contradiction|].
+  unfold dir_is in Hk. rewrite Hk, Hb. reflexivity.
+Qed.
+Theorem C05_upload_elsewhere_needs_privilege :
+  forall (b : bitmap) (declared : N) (items : list bytes),
+    dir_is W_UPLOAD items = false -> dir_is W_DROPBOX items = false -> IsSet b 25 = false ->
+    may_upload_to b declared items = false.
+Proof.
+  intros b d items Hu Hx Hb. unfold may_upload_to, impl_dir_is, dir_is in *. rewrite Hb, Hu, Hx.
+  destruct (N.eqb d 0); reflexivity.
+Qed.
+Theorem C05_upload_folder_never_refused :
+  forall (b : bitmap) (declared : N) (items : list bytes),
+    declared <> 0%N -> (dir_is W_UPLOAD items = true \/ dir_is W_DROPBOX items = true) -> may_upload_to b declared items = true.
+Proof.
+  intros b d items Hd Hk. unfold may_upload_to, impl_dir_is, dir_is in *. destruct (N.eqb_spec d 0); [contradiction|].
+  destruct Hk as [-> | ->]; destruct (IsSet b 25); cbn; rewrite ?orb_true_r; reflexivity.
+Qed.
+Example C05_paths_nonvacuous :
+  dir_is W_DROPBOX [[68;114;111;112;32;66;111;120]; [46]] = true /\                       (* "Drop Box", "." *)
+  dir_is W_UPLOAD [[85;112;108;111;97;100;115;47;46;46;47;100;101;115;116]] = false /\     (* "Uploads/../dest" *)
+  dir_is W_UPLOAD [[100;101;115;116]; [46;46]; [85;112;108;111;97;100;115]] = true.        (* "dest", "..", "Uploads" *)
+Proof. vm_compute. repeat split. Qed.
+
 Example C05_nonvacuous : permit [127;255;255;255;255;255;255;255] 3 = false /\ permit [128;0;0;0;0;0;0;0] 3 = true /\
   governing 16 = [1; 25]%nat.
 Proof. vm_compute. repeat split. Qed.
@@ -65,3 +95,6 @@ Print Assumptions C05_guards_match_spec.
 Print Assumptions C05_class_privileges_are_tested_by_their_handler.
 Print Assumptions C05_denied_iff_privilege_missing.
 Print Assumptions C05_never_refused_when_held.
+Print Assumptions C05_dropbox_listing_needs_privilege.
+Print Assumptions C05_upload_elsewhere_needs_privilege.
+Print Assumptions C05_upload_folder_never_refused.
